@@ -166,9 +166,9 @@ func init() {
 				if !e.anchor("R5", "core.Table.Update", cs == nil || upd == nil) {
 					return
 				}
-				// the Item handed to the interpreter
+				// the Item handed to the interpreter (by Update itself or by a helper it is split into)
 				n := 0
-				instrs(upd, func(in ssa.Instruction) {
+				e.walkLocal("core", upd, 3, func(in ssa.Instruction, ctx []callCtx) {
 					c, ok := in.(*ssa.Call)
 					if !ok || isBuiltin(c) {
 						return
@@ -186,20 +186,26 @@ func init() {
 						if !strings.Contains(typeName(a.Type()), "UpdateInput") {
 							continue
 						}
-						n++
-						// origins of field Item of this struct
+						// origins of field Item of this struct, where the struct is built (a helper that merely passes its
+						// own parameter on is not a site)
 						var itemOrigins []string
+						built := false
 						if u, ok := a.(*ssa.UnOp); ok {
 							if al, ok := u.X.(*ssa.Alloc); ok {
 								for _, r := range refsOf(al) {
 									if fa, ok := r.(*ssa.FieldAddr); ok && fieldOf(fa) != nil && fieldOf(fa).Name() == "Item" {
 										for _, st := range storesTo(fa) {
-											itemOrigins = append(itemOrigins, e.origins(st.Val)...)
+											built = true
+											itemOrigins = append(itemOrigins, e.originsCtx(st.Val, ctx)...)
 										}
 									}
 								}
 							}
 						}
+						if !built {
+							continue
+						}
+						n++
 						hasKeyCopy, hasEmpty := false, false
 						for _, o := range itemOrigins {
 							if strings.Contains(o, "copy-of") && strings.HasSuffix(o, "field:UpdateItemInput.Key") {
@@ -354,26 +360,49 @@ func c01R9(e *Engine) {
 			if !ok || c.Call.StaticCallee() == nil || !isMapCopyFunc(c.Call.StaticCallee()) || len(c.Call.Args) != 1 {
 				return
 			}
-			// copyItem(input.Key): the argument is the request's Key field itself
-			kf, _ := loadedFieldDeep(c.Call.Args[0])
-			if kf == nil || kf.Name() != "Key" || !strings.HasSuffix(fieldOwner(kf), "Input") {
-				return
+			// copyItem(input.Key) – the argument is the request's Key field itself, selected by the branch this block hangs
+			// on – or copyItem(source) with source a phi one of whose edges is that field, selected by the edge's condition
+			isKeyField := func(v ssa.Value) bool {
+				kf, _ := loadedFieldDeep(v)
+				return kf != nil && kf.Name() == "Key" && strings.HasSuffix(fieldOwner(kf), "Input")
+			}
+			var last Cond
+			found := false
+			viaPhi := false
+			switch {
+			case isKeyField(c.Call.Args[0]):
+				if d := c.Block().Idom(); d != nil {
+					if ifi, isIf := d.Instrs[len(d.Instrs)-1].(*ssa.If); isIf && (d.Succs[0] == c.Block()) != (d.Succs[1] == c.Block()) {
+						last, found = normCond(Cond{ifi.Cond, d.Succs[0] == c.Block()}), true
+					}
+				}
+			default:
+				ph, isPhi := strip(c.Call.Args[0]).(*ssa.Phi)
+				if !isPhi {
+					return
+				}
+				for i, ed := range ph.Edges {
+					if !isKeyField(ed) {
+						continue
+					}
+					viaPhi = true
+					efs := edgeFacts(ph.Block().Preds[i], ph.Block())
+					if len(efs) > 0 {
+						last, found = normCond(efs[len(efs)-1]), true
+					}
+				}
+				if !viaPhi {
+					return
+				}
 			}
 			n++
 			construct := e.fname(fn) + ":create-from-key-iff-absent"
-			// the deciding condition: the branch whose successor this block is
-			var last Cond
-			found := false
-			if d := c.Block().Idom(); d != nil {
-				if ifi, isIf := d.Instrs[len(d.Instrs)-1].(*ssa.If); isIf && (d.Succs[0] == c.Block()) != (d.Succs[1] == c.Block()) {
-					last, found = normCond(Cond{ifi.Cond, d.Succs[0] == c.Block()}), true
-				}
-			}
 			if !found {
 				e.fail("R9", construct, e.ipos(c), "the working item is started from the request's key without a deciding presence test: an update of an existing item loses every other attribute")
 				return
 			}
-			// leaves of the deciding condition through negation and phis
+			// leaves of the deciding condition through negation, phis and flags handed down as parameters
+			viaParam := false
 			var leaves []ssa.Value
 			seen := map[ssa.Value]bool{}
 			var walk func(v ssa.Value)
@@ -393,6 +422,25 @@ func c01R9(e *Engine) {
 						return
 					}
 					leaves = append(leaves, v)
+				case *ssa.Parameter:
+					// a flag handed down by the caller (applyUpdate(input, stored, exists)): what every caller passes
+					callers := e.callersOf(x.Parent())
+					idx := -1
+					for i, q := range x.Parent().Params {
+						if q == x {
+							idx = i
+						}
+					}
+					if len(callers) == 0 || idx < 0 {
+						leaves = append(leaves, v)
+						return
+					}
+					viaParam = true
+					for _, cs := range callers {
+						if idx < len(cs.Common().Args) {
+							walk(cs.Common().Args[idx])
+						}
+					}
 				default:
 					leaves = append(leaves, v)
 				}
@@ -413,7 +461,7 @@ func c01R9(e *Engine) {
 			switch {
 			case bad != "":
 				e.fail("R9", construct, e.ipos(c), "whether the working item starts from the request's key is decided (also) by %s, not only by the presence of the key in Data: an upsert can start from an empty item and store an item without its key attributes", bad)
-			case last.Val:
+			case last.Val && !viaParam:
 				e.fail("R9", construct, e.ipos(c), "the item is started from the request's key when the key IS present")
 			default:
 				e.pass("R9", construct, e.ipos(c), "start-from-key is selected by the presence flag of the Data lookup, on its absent side")
